@@ -74,12 +74,17 @@ func c10Pick(name, param string) uint {
 }
 
 // c10HistValue: the histories put no constraint on the value (NaN and infinities included): the oracle
-// compares the emitted value with the specification applied to the same contributions.
-func c10HistValue(small bool) float64 {
+// compares the emitted value with the specification applied to the same contributions. Exception:
+// percentiles order the values, and where NaN sorts is outside the property (sort.Float64s puts it first).
+func c10HistValue(fun string, small bool) float64 {
 	if small {
 		return c10Value(true)
 	}
-	return verifFloat64("v")
+	v := verifFloat64("v")
+	if fun == "percentiles" {
+		verifAssume(v == v)
+	}
+	return v
 }
 
 func c10U32(name string, narrow bool) uint32 {
@@ -156,7 +161,7 @@ func VerifC10Hist() {
 			// ---- a point arrives
 			name := c10Names[kind-1]
 			ts := c10U32("ts", narrow)
-			val := c10HistValue(small)
+			val := c10HistValue(fun, small)
 			a.AddMaybe([][]byte{[]byte(name), []byte("0"), []byte("0")}, val, ts)
 			verifSettle()
 			dOld := numTooOld.Count() - tooOld0
